@@ -3,6 +3,7 @@ package c04
 import (
 	"context"
 	"fmt"
+	context2 "github.com/oneconcern/datamon/pkg/context"
 	"os"
 	"regexp"
 	"sort"
@@ -39,6 +40,9 @@ type caseT struct {
 	SelectRe   string      `json:"select_re,omitempty"`
 	SelectFile string      `json:"select_file,omitempty"`
 	Reuse      bool        `json:"reuse_bundle_object,omitempty"` // metadata is loaded more than once on one Bundle object
+	// BreakMeta: the n-th metadata object the download reads (descriptor, file lists) breaks half-way through its
+	// transfer. The download may then fail; if it reports success the destination must be complete all the same
+	BreakMeta int `json:"break_metadata_read,omitempty"`
 }
 
 func drawCase(t *rapid.T) caseT {
@@ -97,6 +101,9 @@ func drawCase(t *rapid.T) caseT {
 	}
 	c.Download = rapid.SampledFrom([]string{"publish", "publish", "select", "file"}).Draw(t, "download")
 	c.Reuse = rapid.IntRange(0, 3).Draw(t, "reuse") == 0
+	if rapid.IntRange(0, 4).Draw(t, "breakmeta") == 0 {
+		c.BreakMeta = rapid.IntRange(1, 4).Draw(t, "breakmeta_nth")
+	}
 	switch c.Download {
 	case "select":
 		c.SelectRe = rapid.SampledFrom([]string{"^a", "dir", `\.`, "^$", ".*", "b$", "[ünï名]", "^[^/]*$", "/.*/"}).Draw(t, "re")
@@ -253,10 +260,30 @@ func runCase(c caseT) error {
 	}
 	// ---- download
 	dst := sc.Dir("dst")
-	db := hx.NewBundle("repo", v.Stores, hx.Local(dst), 0, core.BundleID(id), core.ConcurrentFileDownloads(c.DownConc), core.ConcurrentFilelistDownloads(c.DownConc))
+	dstores := v.Stores
+	var brk *hx.Breaker
+	if c.BreakMeta > 0 {
+		brk = hx.NewBreaker(v.Meta)
+		dstores = context2.NewStores(v.Wal, v.ReadLog, v.Blob, brk, v.VMeta)
+	}
+	db := hx.NewBundle("repo", dstores, hx.Local(dst), 0, core.BundleID(id), core.ConcurrentFileDownloads(c.DownConc), core.ConcurrentFilelistDownloads(c.DownConc))
+	if brk != nil {
+		brk.Arm(c.BreakMeta, func(k string) bool { return strings.HasPrefix(k, "bundles/repo/"+id+"/") })
+	}
+	// downloadFailed tells whether a failed download is excused by the broken transfer (the case then ends)
+	downloadFailed := func(err error) bool {
+		if err != nil && brk != nil && brk.Hits > 0 {
+			stats.Count("download_refused_after_broken_metadata_transfer", 1)
+			return true
+		}
+		return false
+	}
 	if c.Reuse {
 		// list first (as `bundle list files` does), then download with the same object
 		if err := core.VerifPublishMetadata(ctx, db, false, c.EPF); err != nil {
+			if downloadFailed(err) {
+				return nil
+			}
 			return fmt.Errorf("download metadata before publish: %v", err)
 		}
 	}
@@ -264,12 +291,18 @@ func runCase(c caseT) error {
 	switch c.Download {
 	case "publish":
 		if err := core.VerifPublish(ctx, db, c.EPF, func(string) (bool, error) { return true, nil }); err != nil {
+			if downloadFailed(err) {
+				return nil
+			}
 			return fmt.Errorf("publish: %v", err)
 		}
 		want = expected
 	case "select":
 		re := regexp.MustCompile(c.SelectRe)
 		if err := core.VerifPublish(ctx, db, c.EPF, func(s string) (bool, error) { return re.MatchString(s), nil }); err != nil {
+			if downloadFailed(err) {
+				return nil
+			}
 			return fmt.Errorf("publish select: %v", err)
 		}
 		for p, d := range expected {
@@ -281,6 +314,9 @@ func runCase(c caseT) error {
 		if wantIdx > 1 && c.EPF != 1000 {
 			// PublishFile has no entries-per-file parameter: only usable with one index file
 			if err := core.VerifPublish(ctx, db, c.EPF, func(s string) (bool, error) { return s == c.SelectFile, nil }); err != nil {
+				if downloadFailed(err) {
+					return nil
+				}
 				return fmt.Errorf("publish select one: %v", err)
 			}
 			if d, ok := expected[c.SelectFile]; ok {
@@ -288,6 +324,9 @@ func runCase(c caseT) error {
 			}
 		} else {
 			err := core.PublishFile(ctx, db, c.SelectFile)
+			if downloadFailed(err) {
+				return nil
+			}
 			d, ok := expected[c.SelectFile]
 			if !ok {
 				if err == nil {
